@@ -255,6 +255,17 @@ def chunked(text: str, rng: random.Random) -> list:
     return out
 
 
+def char_chunks(text: str) -> list:
+    """Every character its own chunk, an empty chunk after every third: whatever depends on where a
+    chunk starts or ends shows on every character of the text."""
+    out = []
+    for k, c in enumerate(text):
+        out.append(c)
+        if k % 3 == 0:
+            out.append('')
+    return out or ['']
+
+
 def cut_by(text: str, lens: list) -> list:
     out, pos = [], 0
     for n in lens:
@@ -321,15 +332,20 @@ def rt_record(doc: dict, opts: list, rng: random.Random, src: str, cuts=None) ->
             ftext = 'serialise(file) returned ' + repr(ret)
         if j == 0 and str(kv) != text:
             ftext = 'str(kv) differs'
-        p_str, p_chunks, p_file, chunks = parse_three(text, rng, real, cuts[j] if cuts else None)
+        use_cuts = cuts[j] if cuts else ([len(c) for c in char_chunks(text)] if j == 0 and len(text) <= 4000 else None)
+        p_str, p_chunks, p_file, chunks = parse_three(text, rng, real, use_cuts)
+        # the text serialise(file) wrote must carry the tree as well
+        p_ftext = p_str if ftext == text else run_parse(ftext)
         # an already constructed tokenizer handed to parse()
         p_tok = run_parse(Tokenizer(chunks if j % 2 else text, None, string_bracket=True))
         runs.append({'o': o, 'text': cps(text), 'ftext': cps(ftext), 'after': after, 'p_str': p_str,
-                     'p_chunks': p_chunks, 'p_file': p_file, 'p_tok': p_tok, 'cuts': [len(c) for c in chunks]})
+                     'p_chunks': p_chunks, 'p_file': p_file, 'p_tok': p_tok, 'p_ftext': p_ftext,
+                     'cuts': [len(c) for c in chunks]})
     kv = build_doc(doc)
     export = ''.join(kv.export())
+    p_export = run_parse(export)
     alltext = ''.join(txt(r['text']) for r in runs)
-    return {'k': 'rt', 'doc': doc, 'runs': runs, 'export': cps(export), 'esc': True, 'fold': fold_table(alltext),
+    return {'k': 'rt', 'doc': doc, 'runs': runs, 'export': cps(export), 'p_export': p_export, 'esc': True, 'fold': fold_table(alltext),
             'sig': {'kind': 'rt', 'action': 'serialise', 'src': src, 'blockname': blockname_class(doc)}}
 
 
@@ -515,10 +531,38 @@ def rnd_text(rng: random.Random) -> str:
     return ''.join(rng.choice(FRAGS) + rng.choice(['', '', ' ', '\n']) for _ in range(rng.randint(0, 12)))
 
 
+# Strings that are easy to lose on the way through text: Unicode line separators (str.splitlines,
+# universal newlines), the byte order mark, CR LF pairs, control characters, quotes and backslashes
+# at either end.  Every seed runs all of them, in every slot, first on the first line of the text.
+HOSTILE = ['\ufeffa', 'a\ufeff', '\ufeff', '\x85a', 'a\x85b', 'a\u2028b', '\u2029', 'a\x1cb', 'a\x1db', 'a\x1eb', 'a\x0bb', 'a\x0cb',
+           '\\', 'a\\', '\\n', '"', '"a"', "'", '\t', ' a ', '', '{', '}', '[a]', '//', '#a', '\x00', '\x7f', '\u00df', '\U0001f600']
+HOSTILE_VALUES = ['a\r\nb', '\r\n', '\n', '\r', 'a\nb', '\n\r', ' \n ', '\\\n', 'x\r']
+FIXED_OPTS = [{'indent': [9], 'braces': True, 'start': []}, {'indent': [32, 32], 'braces': False, 'start': [9]},
+              {'indent': [], 'braces': True, 'start': [32, 9, 32]}]
+
+
+def hostile_docs() -> list:
+    L = lambda n, v: {'n': cps(n), 'leaf': True, 'v': cps(v), 'k': [], 'line': 0}
+    B = lambda n, k: {'n': cps(n), 'leaf': False, 'v': [], 'k': k, 'line': 0}
+    R = lambda k: {'root': True, 'node': {'n': [], 'leaf': False, 'v': [], 'k': k, 'line': 0}}
+    docs = []
+    for s in HOSTILE:
+        docs.append(R([L(s, 'v'), L('k', s)]))
+        docs.append(R([B(s, [L('k', s), B(s, [])]), L(s, s)]))
+        docs.append({'root': False, 'node': B(s, [L(s, s)])})
+        docs.append({'root': False, 'node': L(s, s)})
+    for s in HOSTILE_VALUES:
+        docs.append(R([L('k', s), B('b', [L('k', s)])]))
+        docs.append({'root': False, 'node': L('k', s)})
+    return docs
+
+
 def run_random(out: hlib.RecWriter, stats: dict) -> None:
     rng = random.Random(hlib.seed() * 7919 + 101)
     thorough = hlib.tier() == 'thorough'
     n_small, n_big, n_docs = (4000, 60, 20000) if thorough else (250, 6, 2500)
+    for doc in hostile_docs():
+        out.write(rt_record(doc, FIXED_OPTS, rng, 'hostile'))
     for _ in range(n_small):
         doc = rnd_tree(rng, rng.randint(0, 6), rng.choice([2, 3, 5]), rng.choice([3, 6, 12]), [])
         out.write(rt_record(doc, rnd_opts(rng), rng, 'random'))
